@@ -205,7 +205,7 @@ pub fn run(args: &Args) {
         let (outcome, outside, inside) = run_extract(&j, &bytes);
         let want: Vec<Value> = cfg.files.iter().map(|f| {
             let path: Vec<String> = std::iter::once("t".to_string()).chain(gen_::installed_path(&f.dest).split('/').filter(|c| !c.is_empty()).map(|c| c.to_string())).collect();
-            let mode = f.mode.unwrap_or(if f.src_exec { 0o100755 } else { 0o100644 });
+            let mode = gen_::expected_mode(f) as u16;
             let kind = match mode & 0o170000 { 0o040000 => "dir", 0o120000 => "link", _ => "file" };
             json!({"path": path, "kind": kind, "sha": hex(&Sha256::digest(gen_::content(f.len, f.compressible, f.seed))),
                    "perm": (mode & 0o7777) as u32, "target": target_json(f.link.as_deref().unwrap_or(""), &j.jail)})
